@@ -210,6 +210,16 @@ pub fn node_stream(seed: u64, histories: usize, cfg: Cfg) -> Sink {
                 view.conns.entry(p).or_default().insert(c);
                 sink.count(if view.conns[&p].len() > 1 { "node.connect.extra" } else { "node.connect.first" });
                 Some(format!("connect {p} {c}"))
+            } else if r < 33 && rng.chance(1, 5) {
+                // a failed dial: to a connected peer (an extra connection that was refused) or to an unconnected one;
+                // the connection id is fresh or, wrongly reported, one of the peer's established connections
+                let p = rng.below(cfg.peers as usize) as u64;
+                let c = match view.conns.get(&p) {
+                    Some(cs) if !cs.is_empty() && rng.chance(1, 3) => *rng.pick(&cs.iter().copied().collect::<Vec<_>>()),
+                    _ => { view.next_conn += 1; view.next_conn - 1 }
+                };
+                sink.count(if view.conns.contains_key(&p) { "node.dialfail.connected-peer" } else { "node.dialfail.unconnected-peer" });
+                Some(format!("dialfail {p} {c}"))
             } else if r < 33 {
                 let open: Vec<(u64, u64)> = view.conns.iter().flat_map(|(p, cs)| cs.iter().map(move |c| (*p, *c))).collect();
                 if open.is_empty() {
@@ -277,8 +287,15 @@ pub fn node_stream(seed: u64, histories: usize, cfg: Cfg) -> Sink {
                 if !b.is_empty() { sink.count("node.msg.block"); }
                 if w != "N" { sink.count("node.msg.wantlist"); }
                 if !view.conns.contains_key(&p) { sink.count("node.msg.from-unconnected"); }
+                // the connection the message arrives on: one of the peer's connections the harness has opened and
+                // not closed (the node may have given it up for sending meanwhile), or none the node knows
+                let via = match view.conns.get(&p) {
+                    Some(cs) if !cs.is_empty() && rng.chance(5, 6) => *rng.pick(&cs.iter().copied().collect::<Vec<_>>()),
+                    _ => 0,
+                };
+                sink.count(if via == 0 { "node.msg.via-unknown-connection" } else { "node.msg.via-open-connection" });
                 Some(format!(
-                    "msg {} h={} d={} b={} w={}",
+                    "msg {} h={} d={} b={} w={} c={via}",
                     p,
                     h.iter().map(|k| k.to_string()).collect::<Vec<_>>().join(","),
                     d.iter().map(|k| k.to_string()).collect::<Vec<_>>().join(","),
